@@ -102,6 +102,11 @@ type preservationSet struct {
 	names      map[string]bool
 	symbols    map[*analysis.Symbol]bool
 	symbolKeys map[string]bool
+	// templateNames holds the bare names written in macro templates.  A
+	// template name is looked up where the macro is expanded, which may be
+	// any package of the session, so every global definition spelled that
+	// way keeps its name.
+	templateNames map[string]bool
 }
 
 // Minify rewrites one or more source units using a single deterministic
@@ -734,6 +739,9 @@ func renameable(sym *analysis.Symbol, cfg *Config, preserved *preservationSet) b
 	if preserved != nil && preserved.names[name] {
 		return false
 	}
+	if preserved != nil && preserved.templateNames[name] && sym.Scope != nil && sym.Scope.Kind == analysis.ScopeGlobal {
+		return false
+	}
 	if preserved != nil && (preserved.symbols[sym] || preserved.symbolKeys[symbolLookupKey(sym)]) {
 		return false
 	}
@@ -745,6 +753,8 @@ func buildPreservationSet(files []parsedFile, cfg *Config) *preservationSet {
 		names:      make(map[string]bool),
 		symbols:    make(map[*analysis.Symbol]bool),
 		symbolKeys: make(map[string]bool),
+
+		templateNames: make(map[string]bool),
 	}
 	if cfg != nil {
 		for name := range cfg.Exclusions {
@@ -937,6 +947,9 @@ func collectTemplateSymbols(node *lisp.LVal, scope *analysis.Scope, protected *p
 		return
 	}
 	if node.Type == lisp.LSymbol {
+		if templateNameResolvesAtExpansion(node.Str) {
+			protected.templateNames[node.Str] = true
+		}
 		if sym := preserveMacroTemplateSymbol(scope, node.Str); sym != nil {
 			protected.symbols[sym] = true
 			protected.symbolKeys[symbolLookupKey(sym)] = true
@@ -957,11 +970,14 @@ func collectTemplateSymbols(node *lisp.LVal, scope *analysis.Scope, protected *p
 	}
 }
 
+func templateNameResolvesAtExpansion(name string) bool {
+	return name != "" &&
+		!strings.Contains(name, ":") &&
+		!strings.HasPrefix(name, "%")
+}
+
 func preserveMacroTemplateSymbol(scope *analysis.Scope, name string) *analysis.Symbol {
-	if name == "" ||
-		strings.Contains(name, ":") ||
-		strings.HasPrefix(name, ":") ||
-		strings.HasPrefix(name, "%") {
+	if !templateNameResolvesAtExpansion(name) {
 		return nil
 	}
 	sym := scope.Lookup(name)
